@@ -22,6 +22,9 @@ import (
 
 const VschedImport = "github.com/krotik/ecal/zzverif/vsched"
 
+// VatomicImport is the stand-in of sync/atomic (sources next to the vsched directory)
+const VatomicImport = "github.com/krotik/ecal/zzverif/vatomic"
+
 // Set is the instrumented set (package dirs relative to the repo root).
 var Set = []string{"engine/pool", "engine/pubsub", "engine", "scope", "util", "stdlib", "parser", "interpreter"}
 
@@ -187,6 +190,9 @@ func Run(o Options) (*Summary, error) {
 			overlay[filepath.Join(o.Repo, "zzverif", "vsched", en.Name())] = filepath.Join(o.VschedDir, en.Name())
 		}
 	}
+	if _, err := os.Stat(filepath.Join(o.VschedDir, "..", "vatomic", "vatomic.go")); err == nil {
+		overlay[filepath.Join(o.Repo, "zzverif", "vatomic", "vatomic.go")] = filepath.Join(o.VschedDir, "..", "vatomic", "vatomic.go")
+	}
 	for _, x := range o.Extra {
 		kv := strings.SplitN(x, "=", 2)
 		overlay[filepath.Join(o.Repo, kv[0])] = kv[1]
@@ -271,9 +277,11 @@ func (pi *pkgInstr) rewriteFile(fe *fileEdits) {
 	syncName, syncSpec := importName(f, "sync")
 	timeName, _ := importName(f, "time")
 	randName, _ := importName(f, "math/rand")
-	_, atomicSpec := importName(f, "sync/atomic")
+	atomicName, atomicSpec := importName(f, "sync/atomic")
 	if atomicSpec != nil {
-		pi.sum.Notes = append(pi.sum.Notes, "sync/atomic imported by "+fe.path+" (not shimmed; atomics are treated as invisible ordered steps)")
+		// same identifier, stand-in package: every atomic operation is a scheduling point
+		fe.replace(pi.off(atomicSpec.Pos()), pi.off(atomicSpec.End()), atomicName+` "`+VatomicImport+`"`)
+		pi.sum.Notes = append(pi.sum.Notes, "sync/atomic imported by "+fe.path+" (replaced by the vatomic stand-in: scheduling point + synchronisation edge per operation)")
 	}
 	if syncSpec != nil {
 		// same identifier, other package
